@@ -329,6 +329,14 @@ func cause(c *Case, res *Result, idx int) string {
 		add(rp.JoinAt > 0 && rp.JoinAt < len(c.Phases), "midjoin")
 	}
 	add(s.second, "tworeplicas")
+	if lw := 0; true {
+		for _, o := range c.Phases[len(c.Phases)-1].Ops {
+			if o.Op != "flush" {
+				lw++
+			}
+		}
+		add(lw == 1, "singlelastwrite")
+	}
 	if out == "" {
 		out = "plain"
 	}
